@@ -61,18 +61,19 @@ func (v *verdicts) add(clause, format string, a ...any) {
 
 // stats is what the readings observed (for evidence and non-triviality).
 type stats struct {
-	TarEntries, TOCEntries      int
-	DataEntries                 int // reg/chunk entries read back through offset/innerOffset
-	MultiChunkFiles             int
-	SharedStreamEntries         int // data entries with innerOffset > 0
-	Streams                     int // distinct offsets
-	Landmarks                   int
-	BytesVerified               int64
-	DroppedDuplicates           int
-	KeptDuplicates              int
-	DigestsChecked              int
-	MaxChunksPerFile            int
-	UncompressedSize, BlobBytes int64
+	TarEntries, TOCEntries          int
+	DataEntries                     int // reg/chunk entries read back through offset/innerOffset
+	MultiChunkFiles                 int
+	SharedStreamEntries             int // data entries with innerOffset > 0
+	Streams                         int // distinct offsets
+	Landmarks                       int
+	BytesVerified                   int64
+	DroppedDuplicates               int
+	KeptDuplicates                  int
+	DigestsChecked                  int
+	MaxChunksPerFile                int
+	UncompressedSize, BlobBytes     int64
+	UnpackCompared, UnpackHardlinks int
 }
 
 // compareHeader compares the VALUES of a tar header with the model entry.
@@ -316,6 +317,12 @@ func checkCase(c *caseSpec, in []inEntry, inputTar []byte, b *built) (v verdicts
 	}
 	if isBuild && st.Landmarks != 1 {
 		v.add("landmark-count", "%d landmark entries in the output of Build", st.Landmarks)
+	}
+
+	// reading 1b: a sequential extractor gets the same root filesystem from the output as from the input
+	if ok, links := checkUnpack(&v, in, ents); ok {
+		st.UnpackCompared = 1
+		st.UnpackHardlinks = links
 	}
 
 	// expected input entries: TOC-named ones are documented as dropped; Build drops input landmarks
